@@ -350,7 +350,7 @@ func runC10(ctx *core.Ctx) {
 	// declaration boundaries: a permissive matcher ("tiny": any value of <= 6 bytes) accepts a value
 	// that leaves a block, string, comment or escape open; whatever is emitted must still read, for a
 	// browser, as declarations whose values a matcher accepts
-	openers := []string{"{", "(", "[", "\"x", "'x", "x /*", "x\\", "x\\;", "url(", "x(", "}", ")", "]", "x!y", "x !z", "/*", "\\", "\"", "'", "x\\\n", "([", "{(", "a\\9", "<!--", "-->", "x\"", "\\;"}
+	openers := []string{"(a]", "[a)", "{a)", "(a}", "([)]", "{", "(", "[", "\"x", "'x", "x /*", "x\\", "x\\;", "url(", "x(", "}", ")", "]", "x!y", "x !z", "/*", "\\", "\"", "'", "x\\\n", "([", "{(", "a\\9", "<!--", "-->", "x\"", "\\;"}
 	ctx.Run("declaration-boundaries", len(openers)*4, func(cs *core.Case) {
 		op := openers[cs.Index%len(openers)]
 		variant := cs.Index / len(openers)
